@@ -2690,6 +2690,9 @@ class Interp:
                     return ListV(out)
             if name == "split_at" and len(args) == 1 and isinstance(args[0], int) and 0 <= args[0] <= len(items):
                 return (ListV(items[:args[0]]), ListV(items[args[0]:]))
+            if name == "split_at_mut" and len(args) == 1 and isinstance(args[0], int) and 0 <= args[0] <= len(items) and all(isinstance(x, (ListV, Var, Rope)) for x in items):
+                # two views onto the same rows: the rows are shared objects, so writes into a row reach the vector
+                return (ListV(items[:args[0]]), ListV(items[args[0]:]))
             if name in ("split_first", "split_last") and not args:
                 if not items:
                     return NONE
@@ -2960,6 +2963,11 @@ class Interp:
             it = ListV(list(range(it.fields.get("start", 0), hi)))
         if not isinstance(it, ListV):
             return it if is_unknown(it) else Unknown("for over non-list %r" % (it,))
+        src = n["iter"]
+        while src.get("k") == "Block" and not src.get("stmts") and src.get("e"):
+            src = src["e"]
+        if src.get("k") == "Ref" and src.get("mut"):
+            it = _mut_view(it)      # `for x in &mut v`: the items are references into v
         for x in list(it.items):
             if self.bind(n["pat"], x, env) is not True:
                 return Unknown("for pattern")
